@@ -109,7 +109,7 @@ class C22(Check):
         return C.scenarios(scenario)
 
     def examples(self, tier):
-        return 10 if tier == "quick" else 250
+        return 6 if tier == "quick" else 250
 
     def budget_s(self, tier):
         return 600.0 if tier == "quick" else 1700.0
